@@ -15,6 +15,7 @@ EXPLANATION = (
     "composed with its reverse normalises to the identity (exact rational functions, cbrt/sqrt axioms, monotone-cbrt rewriting of "
     "thresholds); (ALPHA) alpha is split off, passed through unchanged and never enters the colour. Not decided: the size of the "
     "floating-point round-trip error, trigonometric hops (polar forms), Okhsl/Okhsv/HSLuv searches."
+    " ALPHA per type: with_alpha / without_alpha / split of each bare colour type are the struct literal / identity / (self, full opacity). GammaFn pair mutually inverse. ALIAS: the alpha aliases are Alpha<the colour their name says, T>."
 )
 
 T_FCU = "convert::from_into_color_unclamped::FromColorUnclamped"
